@@ -248,13 +248,20 @@ impl FeoxStore {
     #[verifier::external_body]
     pub fn get_timestamp_pub(&self) -> u64 { unimplemented!() }
 
+    // operations.rs calculate_record_size: fixed overhead + key + value (Kani unit memory_reservation)
     #[verifier::external_body]
-    pub fn calculate_record_size(&self, key_len: usize, value_len: usize) -> usize { unimplemented!() }
+    pub fn calculate_record_size(&self, key_len: usize, value_len: usize) -> (n: usize)
+        ensures (key_len <= 0x10_0000 && value_len <= 0x1000_0000) ==> n as int == rec_overhead() + key_len + value_len,
+    {
+        unimplemented!()
+    }
 
     #[verifier::external_body]
     pub fn note_ttl_transition(&self, old: u64, new: u64) { unimplemented!() }
 
 }
+
+pub uninterp spec fn rec_overhead() -> int;
 
 // ---- small std shims
 pub trait TryUsize: Sized {
